@@ -266,8 +266,16 @@ def vertical_shift(
         src_rows (ilist.IList[int, Any]): The list of source row indices.
     """
 
+    # the traced kernel moves the whole cropped block (all rows that can be
+    # shifted by `offset`) and selects `src_rows` among its y tones
+    num_rows = spec.get_int_constant(constant_id="logical_rows")
+    if offset > 0:
+        num_rows = num_rows - offset
+    else:
+        num_rows = num_rows + offset
+
     x_tones = ilist.range(spec.get_int_constant(constant_id="code_size"))
-    y_tones = ilist.range(len(src_rows))
+    y_tones = ilist.range(num_rows)
 
     device_fn = schedule.device_fn(vertical_shift_impl, x_tones, y_tones)
     device_fn(offset, src_col, src_rows)
@@ -313,8 +321,9 @@ def gr_zero_to_one(
     Args:
         src_rows (ilist.IList[int, Any]): The rows to apply the transformation to.
     """
+    # the traced kernel moves the whole block and selects `src_rows` among its y tones
     x_tones = ilist.range(spec.get_int_constant(constant_id="code_size"))
-    y_tones = ilist.range(len(src_rows))
+    y_tones = ilist.range(spec.get_int_constant(constant_id="logical_rows"))
 
     device_fn = schedule.device_fn(gr_zero_to_one_impl, x_tones, y_tones)
     device_fn(src_rows)
